@@ -899,7 +899,7 @@ def run(ctx):
     if any(v[1] for v in ctx.violations) and not os.path.exists(common.harness_bin("C18")):
         return ctx.finish(res, trusted=common.TRUSTED_COMMON)
     rng = ctx.rng
-    nprog = ctx.scale(36, 1000)
+    nprog = ctx.scale(72, 1000)
     nops = ctx.scale(110, 400)
     open_ids = {f["id"]: f for f in ctx.open_findings}
 
